@@ -310,7 +310,7 @@ CHECKS["C12"] = {
              {"name": "conc.client.lowlatency", "files": [G + "c12_lowlat.go", G + "c11_fetch.go"] + C12F, "fn": "VerifH_C12_lowlatency", "workers": 8, "reach": ["stalled", "end"], "replay_timeout": 120}],
 }
 
-C09F = [G + "c09_cosim.go", G + "c12_client.go"] + CLIP + [G + "mux_stub_findcompat.go"]
+C09F = [G + "c09_cosim.go", G + "c12_client.go", G + "cli_ts.go"] + CLIP + [G + "mux_stub_findcompat.go"]
 
 
 def c09run(name, tracks, kq, kt, **extra):
@@ -323,15 +323,16 @@ def c09run(name, tracks, kq, kt, **extra):
 CHECKS["C09"] = {
     "technique": "co-simulation: K symbolic writes into the real fMP4 Muxer, then the whole real Client runs as engine threads with its HTTP requests answered by the real Muxer.Handle; "
                  "lemma: checkSupport accepts every codec string codecparams.Marshal produces for the codecs Start accepts",
-    "bounds": {"quick": {"cosim": "fMP4, H264 video (and AV1 video, K=4), K=5 writes (IDR / non-IDR / IDR with changed PPS), symbolic DTS deltas and SegmentMinDuration, client attached after the writes",
+    "bounds": {"quick": {"cosim": "fMP4 and MPEG-TS, H264 video (and AV1 video in fMP4, K=4), K=5 writes (IDR / non-IDR / IDR with changed PPS), symbolic DTS deltas and SegmentMinDuration, client attached after the writes",
                          "lemma.codecs": "H264, H265, AV1, VP9 (profile 0..3, depth 8..12), MPEG-4 audio (object type 1..42), Opus"},
                "thorough": {"cosim": "K=6; H265 and VP9 video K=5; video + audio rendition K=6; AbsoluteTime run with symbolic origin and tabled frame durations"}},
     "assumptions": MUX_STUBS + CHECKS["C10"]["assumptions"] + ["the two wire formats (playlist text, fMP4 bytes) are lossless transports (C14 + mediacommon)"],
-    "outside": ["MPEG-TS and Low-Latency variants end to end", "client attached while the writer is running", "real HTTP and pacing"],
+    "outside": ["the Low-Latency variant end to end; MPEG-TS end to end with an audio track (video-only MPEG-TS is co-simulated; the audio half is the client.ts.times run)", "client attached while the writer is running", "real HTTP and pacing"],
     "runs": [
         {"name": "lemma.codecs", "files": C09F, "fn": "VerifH_C09_codecs", "workers": 8, "reach": ["marshalled"]},
         c09run("cosim.fmp4.video", 0, 5, 6),
         c09run("cosim.fmp4.av1", 0, 4, 5, VCODEC=3, VKINDS=3),
+        dict(c09run("cosim.ts.video", 0, 5, 6, VKINDS=2), params={"VARIANT": 1, "TRACKS": 0, "VKINDS": 2}),
         dict(c09run("cosim.fmp4.h265", 0, 5, 5, VCODEC=1, VKINDS=3), thorough_only=True),
         dict(c09run("cosim.fmp4.vp9", 0, 5, 5, VCODEC=2, VKINDS=3), thorough_only=True),
         dict(c09run("cosim.fmp4.video+audio", 1, 6, 6), thorough_only=True),
